@@ -54,5 +54,6 @@ def run(rep, tier, seed):
     D.run_contracts(rep, "C13", O.BOUND_CONTRACTS, tier)
     from contracts import enumerators as EN
     D.run_contracts(rep, "C13", EN.ALL, tier)
+    D.run_static(rep, "C13", ("purity",))      # every per-call contract presupposes that results are functions of the arguments
     t3(rep, tier, seed)
     D.link_falsifier(rep)
